@@ -111,7 +111,7 @@ fn corpus() -> Vec<Value> {
     let atoms = vec![Value::Nil, Value::Null, Value::from(true), Value::from(1), Value::from(-1), Value::from(300), Value::from(u64::MAX), Value::from(1.5), Value::from(1e300), Value::from(1e39), Value::from(-4e38), Value::from('c'), Value::from("s"), sym("U"), sym("N"), sym("x"),
                      Value::keyword("k"), Value::from(vec![1u8, 2].into_boxed_slice()),
                      Value::from(""), Value::from("1"), Value::from("-7"), Value::from("1.5"), Value::from("("), Value::from(")"), Value::from("1 2"), Value::from("#\\"), Value::from("\"x"), Value::from("ab"), Value::from("\u{3bb}"), Value::from("#t"), Value::from("()"),
-                     Value::from(0), Value::from(255), Value::from(256), Value::from(1u64 << 63), Value::from(i64::MIN), Value::from(i64::MAX), Value::from(u32::MAX), Value::from(-129), Value::from(0.0), Value::from(-0.5),
+                     Value::from(0), Value::from(255), Value::from(256), Value::from(1u64 << 63), Value::from(i64::MIN), Value::from(i64::MAX), Value::from(u32::MAX), Value::from(1u64 << 31), Value::from(i32::MIN), Value::from(65535), Value::from(65536), Value::from(-32769), Value::from(128), Value::from(-129), Value::from(0.0), Value::from(-0.5),
                      Value::from('\u{3bb}'), Value::from('\u{0}'), sym(""), Value::keyword(""), Value::from(Vec::<u8>::new().into_boxed_slice()), Value::from(false)];
     let mut out = atoms.clone();
     out.push(Value::Vector(vec![Value::from(7)].into()));
@@ -144,7 +144,8 @@ fn one<T>(v: &Value, ty: &str) -> Option<String> where T: serde::Serialize + for
 fn check18(case: &str) -> Option<String> {
     let p: Vec<&str> = case.split(':').collect();
     let v = corpus().into_iter().nth(p.get(1)?.parse::<usize>().ok()?)?;
-    None.or_else(|| one::<bool>(&v, "bool")).or_else(|| one::<i8>(&v, "i8")).or_else(|| one::<u8>(&v, "u8")).or_else(|| one::<i64>(&v, "i64")).or_else(|| one::<u64>(&v, "u64")).or_else(|| one::<f32>(&v, "f32")).or_else(|| one::<f64>(&v, "f64")).or_else(|| one::<Vec<f32>>(&v, "Vec<f32>"))
+    None.or_else(|| one::<bool>(&v, "bool")).or_else(|| one::<i8>(&v, "i8")).or_else(|| one::<u8>(&v, "u8")).or_else(|| one::<i16>(&v, "i16")).or_else(|| one::<u16>(&v, "u16")).or_else(|| one::<i32>(&v, "i32")).or_else(|| one::<u32>(&v, "u32")).or_else(|| one::<usize>(&v, "usize")).or_else(|| one::<isize>(&v, "isize")).or_else(|| one::<i64>(&v, "i64"))
+        .or_else(|| one::<Vec<u32>>(&v, "Vec<u32>")).or_else(|| one::<Option<u16>>(&v, "Option<u16>")).or_else(|| one::<(u32, i16)>(&v, "(u32, i16)")).or_else(|| one::<Option<Option<i32>>>(&v, "Option<Option<i32>>")).or_else(|| one::<BTreeMap<u32, i8>>(&v, "BTreeMap<u32, i8>")).or_else(|| one::<u64>(&v, "u64")).or_else(|| one::<f32>(&v, "f32")).or_else(|| one::<f64>(&v, "f64")).or_else(|| one::<Vec<f32>>(&v, "Vec<f32>"))
         .or_else(|| one::<char>(&v, "char")).or_else(|| one::<String>(&v, "String")).or_else(|| one::<Option<i32>>(&v, "Option<i32>")).or_else(|| one::<Vec<i32>>(&v, "Vec<i32>"))
         .or_else(|| one::<(i32, i32)>(&v, "(i32, i32)")).or_else(|| one::<BTreeMap<String, i32>>(&v, "BTreeMap<String, i32>")).or_else(|| one::<()>(&v, "()")).or_else(|| one::<Unit>(&v, "Unit"))
         .or_else(|| one::<New>(&v, "New")).or_else(|| one::<Tup>(&v, "Tup")).or_else(|| one::<St>(&v, "St")).or_else(|| one::<E>(&v, "E")).or_else(|| one::<Vec<Option<E>>>(&v, "Vec<Option<E>>"))
